@@ -657,11 +657,21 @@ class Check(PropertyCheck):
                   "reads back as the n flows in order and ends cleanly (read_roundtrip); fuel exhaustion never happens "
                   "(pop_total, load_total, stream_total); load raises only the classes FlowReader catches "
                   "(load_error_caught) and the reader never ends with any other exception than FlowReadException "
-                  "(never_other). The model is tied to the code differentially on values, raw/mutated files and real flows "
+                  "(never_other, gated_never_other); ANY byte string that starts with good records yields their flows first, "
+                  "whatever garbage, cut record or unknown-version record follows (corrupted_tail_keeps_flows, "
+                  "corrupted_tail_ends_in_flow_read_error); with the reader's dispatch transcribed — migrate_flow's first-iteration "
+                  "version check (bytes/str key precedence, int/bool/tuple normalisation, converter-graph lookup from Gen/C38) and "
+                  "Flow.__types[state['type']] — a record the gate rejects ends the read with FlowReadException after exactly the flows "
+                  "before it (rejected_record_stops_reader) and a record passes only with the current version and a registered type "
+                  "(gate_pass_current_and_registered). The model is tied to the code differentially on values, raw/mutated files and real flows "
                   "of every type; from_state∘get_state equality of flows is validated by the harness, not modelled.")
     level_note = ("trusted: Lean kernel; the model/implementation tie is differential (random + defect-seeded inputs, not "
                   "exhaustive); float literals are tokens (Python float()/repr() assumed to round-trip; the model only decides "
-                  "which literals float() accepts); Flow.from_state∘compat.migrate_flow and the HAR importer are parameters "
+                  "which literals float() accepts); of Flow.from_state∘compat.migrate_flow the version check and the type dispatch are transcribed and PREDICTED in the "
+                  "tie (stage-resolved: the harness observes whether an exception came before any converter / field access); "
+                  "what stays a parameter is set_state of the selected flow class, the converter chain for older versions (gate = defer; "
+                  "its field surgery is C38's model) and version values with float components (deferShape); the flow-type table includes "
+                  "the test helper's 'dummy' type because mitmproxy.test.tflow is imported by the harness; the HAR importer is a parameter "
                   "of the reader model (any outcome, exceptions classified ValueError / other Exception / non-Exception; "
                   "never_other assumes they raise no BaseException outside Exception, and — being total functions in the model — that they "
                   "terminate: the real migrate_flow did not (F-C36d, fixed), termination is checked by the harness with a per-case "
@@ -681,7 +691,8 @@ class Check(PropertyCheck):
     fingerprints = ["mitmproxy.io.tnetstring:dumps", "mitmproxy.io.tnetstring:dump", "mitmproxy.io.tnetstring:_rdumpq",
                     "mitmproxy.io.tnetstring:load", "mitmproxy.io.tnetstring:parse", "mitmproxy.io.tnetstring:split",
                     "mitmproxy.io.tnetstring:pop", "mitmproxy.io.tnetstring:loads", "mitmproxy.io.io:FlowReader.stream",
-                    "mitmproxy.io.io:FlowReader.peek", "mitmproxy.io.io:FlowWriter.add", "mitmproxy.io.io:FilteredFlowWriter.add"]
+                    "mitmproxy.io.io:FlowReader.peek", "mitmproxy.io.io:FlowWriter.add", "mitmproxy.io.io:FilteredFlowWriter.add",
+                    "mitmproxy.io.compat:migrate_flow", "mitmproxy.flow:Flow.from_state"]
     trusted_base = ["CPython int()/float()/str(bytes,'utf8') on bytes-like objects as the primitives whose accept/reject "
                     "grammar the model transcribes; float(repr(x)) == x",
                     "get_state/from_state of the flow classes (validated by round trip, not modelled)"]
@@ -1017,6 +1028,7 @@ class Check(PropertyCheck):
             out.append("raw:pop:" + (obs["pop"][1] if obs["pop"][0] == "err" else "ok"))
             out.append("raw:read:" + obs["read"][1])
             if case.get("file"): out.append("raw:real-file")
+            if obs["outcomes"] != "-": out.append("raw:from_state:" + obs["outcomes"][-1])
         elif k == "mut":
             out.append("mut:read:%s:%s" % (min(obs["read"][0], 3), obs["read"][1]))
             oc = obs["outcomes"]
